@@ -354,6 +354,8 @@ def overlap_check(spheres, x, rho, got, what):
     if not sc.ok:
         return None
     tol = Fraction(tol_of(sc.L))
+    if all(float(v).is_integer() and abs(v) <= 2 ** 20 for v in vals):
+        tol = Fraction(0)  # integer lattice: the C's squares, sums and the comparison are exact, ties included
     X = sc.p(x)
     s = 1 << sc.k
     gotc = {}
@@ -745,8 +747,9 @@ def gen_kernel(rng, tier):
             pts = (t + [x, list(x), s[0]])[:k]
             if rng.random() < 0.1:
                 pts = [[-0.0, -0.0, -0.0]] * k
-            ops.append('bsphere %s' % fhs([c for v in pts for c in v]))
-    ops += ['d2 %s' % fhs([0] * 8), 'd3 %s' % fhs([0] * 11), 'bsphere', 'bsphere %s' % fhs([1, 2]),
+            ops.append('%s %s' % (rng.choice(['bsphere', 'bspheren']), fhs([c for v in pts for c in v])))
+    ops += ['d2 %s' % fhs([0] * 8), 'd3 %s' % fhs([0] * 11), 'bsphere', 'bsphere %s' % fhs([1, 2]), 'bspheren',
+            'bspheren %s' % fhs([1, 2, 3, 4]), 'bspheren %s' % fhs([0.5] * 84),
             'd2 %s' % fhs([float('nan')] + [0] * 8), 'd3 %s' % fhs([float('inf')] + [1] * 11),
             'd2 %s' % fhs([0, 0, 0, 1, 0, 0, 1e20, 0, 0]), 'd2 %s' % fhs([0, 0, 0, 1, 0, 0, 1e20, 1, 0]),
             'd3 %s' % fhs([0, 0, 0, 1, 0, 0, 0, 1, 0, 1e21, 1e21, 0])]
@@ -772,7 +775,7 @@ def oracle_kernel(ops, impl):
             if not within(d, t2, sc, tol_of(sc.L)):
                 bad.append((i, '%s = %r but the exact distance is %r (more than 1e-12 L apart)'
                             % (w[0], d, math.sqrt(float(t2)) / (1 << sc.k))))
-        elif w[0] == 'bsphere' and r != 'bad-op':
+        elif w[0] in ('bsphere', 'bspheren') and r != 'bad-op':
             f = _floats(w[1:])
             out = r.split()
             if 'nan' in out:
@@ -924,24 +927,41 @@ class ScaleOracle:
 
     def __call__(self, ops, impl):
         unexplained, explained = [], []
-        last_nearest = None  # (index, value, x words)
-        kernel_min = None
+        tris = []          # hex words of the session's triangles
+        inserted = None    # set of triangle word tuples in the tree
+        pending = None     # [index, value hex, x words, {tri words: d3 hex}]
+
+        def close():
+            nonlocal pending
+            if pending is not None and inserted and set(pending[3]) >= inserted:
+                m = min((pending[3][t] for t in inserted), key=hf)
+                if hf(m) != hf(pending[1]):
+                    unexplained.append((pending[0], 'nearest3 returned %s but the minimum of the kernel values of '
+                                        'the inserted triangles is %s' % (pending[1], m)))
+            pending = None
+
         for i, (o, r) in enumerate(zip(ops, impl)):
             w = o.split()
+            if w[0] == 'd3' and pending is not None and w[10:13] == pending[2] and r not in ('bad-op', 'failure', 'nan'):
+                pending[3][tuple(w[1:10])] = r
+            elif w[0] != 'd3' or pending is None or w[10:13] != pending[2]:
+                close()
             if w[0] == 'reset':
-                last_nearest, kernel_min = None, None
-            elif w[0] == 'nearest3' and r.startswith('ok'):
-                if last_nearest is not None and kernel_min is not None and last_nearest[1] != kernel_min:
-                    unexplained.append((last_nearest[0], 'nearest3 returned %s but the minimum of the kernel values '
-                                        'of the inserted triangles is %s' % (last_nearest[1], kernel_min)))
-                last_nearest, kernel_min = (i, r.split()[1], w[1:4]), None
-            elif w[0] == 'd3' and r not in ('bad-op', 'failure'):
+                tris, inserted = [], None
+            elif w[0] == 'tri' and r == 'ok':
+                tris.append(tuple(w[1:10]))
+            elif w[0] == 'wallbuild':
+                inserted = None
+                if r == 'ok' and w[1] == '3' and all(v.isdigit() and int(v) < len(tris) for v in w[2:]):
+                    inserted = set(tris[int(v)] for v in w[2:])
+            elif w[0] in ('create', 'insert'):
+                inserted = None
+            elif w[0] == 'nearest3' and r.startswith('ok') and len(w) == 5 and w[4] == fh(REF_DBL_MAX):
+                pending = [i, r.split()[1], w[1:4], {}]
+            if w[0] == 'd3' and r not in ('bad-op', 'failure'):
                 f = _floats(w[1:])
-                if f is None:
+                if f is None or len(f) != 12:
                     continue
-                if last_nearest is not None and w[10:13] == last_nearest[2] and r != 'nan':
-                    if kernel_min is None or hf(r) < hf(kernel_min):
-                        kernel_min = r
                 sc = Scaler(f)
                 if not sc.ok:
                     continue
@@ -959,9 +979,7 @@ class ScaleOracle:
                         explained.append((i, msg, SITE_D3))
                     else:
                         unexplained.append((i, msg))
-        if last_nearest is not None and kernel_min is not None and last_nearest[1] != kernel_min:
-            unexplained.append((last_nearest[0], 'nearest3 returned %s but the minimum of the kernel values of the '
-                                'inserted triangles is %s' % (last_nearest[1], kernel_min)))
+        close()
         if self.strict is None:
             self.strict = bool(unexplained)
         return unexplained if self.strict else unexplained + explained
